@@ -49,7 +49,7 @@ def logu(rnd, lo, hi):
 
 
 # ------------------------------------------------------------------ TLC side
-def validate(events, chk, name, jobs=12, timeout=1500, min_cost=8.0):
+def validate(events, chk, name, jobs=8, timeout=1500, min_cost=8.0):
     """Validate events with spec/Trace_Dedisp.tla in parallel TLC processes
     (each is single-threaded).  Returns [(event, failed clause names)]."""
     if not events:
@@ -72,7 +72,7 @@ def validate(events, chk, name, jobs=12, timeout=1500, min_cost=8.0):
             json.dump(part, f)
         if os.path.exists(vf):
             os.remove(vf)
-        r = tlc.run("Trace_Dedisp", "Trace_Dedisp.cfg", workers=1, timeout=timeout, heap="3g",
+        r = tlc.run("Trace_Dedisp", "Trace_Dedisp.cfg", workers=1, timeout=timeout, heap="2g",
                     env={"TRACE_FILE": tf, "VERDICT_FILE": vf})
         rej, summary = [], None
         if os.path.exists(vf):
@@ -103,7 +103,7 @@ def validate(events, chk, name, jobs=12, timeout=1500, min_cost=8.0):
     return out
 
 
-def judge(chk, events, cases, name, jobs=12, timeout=1500):
+def judge(chk, events, cases, name, jobs=8, timeout=1500):
     """Validate, then turn TLC's verdicts into violations / counters."""
     rejected = validate(events, chk, name, jobs=jobs, timeout=timeout)
     amb = 0
